@@ -264,6 +264,12 @@ class Impl:
         return ";;".join(f"{k}={canon_real(self.r[k])}" for k in REGS)
 
     def do(self, op):
+        # never hand an incoherent container back to the code: the unchecked Cython bond indexing would read
+        # out of bounds (the oracle has already reported the op that broke it)
+        for x in re.findall(r"r[0-3]", op):
+            bad = _coherent(self.r.get(x))
+            if bad:
+                return "INCOHERENT:" + bad
         try:
             return "ok " + self._do(op.split())
         except Exception as e:  # noqa: BLE001
@@ -379,18 +385,9 @@ class Impl:
         raise RuntimeError("bad-op")
 
 
-def _run_impl(case):
+def run_impl(case):
     impl = Impl()
     return [impl.do(op) for op in case["ops"]]
-
-
-def run_impl(case):
-    """In a forked child: a container the code left incoherent can crash the unchecked Cython indexing."""
-    from common import sandbox
-    res = sandbox.run_forked(_run_impl, case, timeout=120)
-    if res[0] == "ok":
-        return res[1]
-    return ["CRASH:" + ":".join(str(x) for x in res)[:120]]
 
 
 # ------------------------------------------------------------------ reference: a plain list of atom objects
@@ -828,16 +825,6 @@ def _shares(a, b):
 
 
 def oracle(case):
-    from common import sandbox
-    res = sandbox.run_forked(_oracle, case, timeout=120)
-    if res[0] == "ok":
-        return res[1]
-    if res[0] == "err":
-        raise RuntimeError(f"oracle raised {res[1]}: {res[2]}")
-    return [("C01/crash/" + "-".join(str(x) for x in res), f"the real code crashed the process ({res}) on {(case.get('ops') or [])[:3]}...")]
-
-
-def _oracle(case):
     ops = case.get("ops") or []
     impl, ref = Impl(), Ref()
     for k, op in enumerate(ops):
